@@ -37,8 +37,11 @@ ATTRS = {
     "text-x": lambda v: f'<text id="s" x="{v}" y="3">label</text>',
     "stop-offset": lambda v: f'<defs><linearGradient id="lg"><stop id="s" offset="{v}" stop-color="red"/></linearGradient></defs><rect x="0" y="0" width="2" height="2"/>',
     "font-size": lambda v: f'<text id="s" x="1" y="3" font-size="{v}">label</text>',
+    "line-end-only": lambda v: f'<line id="s" x2="{v}" y2="3"/><line x1="{v}" y2="4"/>',
+    "use-x": lambda v: f'<rect id="t" x="0" y="0" width="3" height="3"/><use id="s" href="#t" x="{v}" y="2"/>',
 }
-ATTR_NAME = {"rect-x": "x", "rect-width": "width", "circle-r": "r", "line-x2": "x2", "stroke-width": "stroke-width", "text-x": "x",
+ATTR_NAME = {"line-end-only": "x2", "use-x": "x", "root-width": "width",
+             "rect-x": "x", "rect-width": "width", "circle-r": "r", "line-x2": "x2", "stroke-width": "stroke-width", "text-x": "x",
              "stop-offset": "offset", "font-size": "font-size"}
 
 
@@ -47,6 +50,22 @@ def func_text(f, asep, rnd):
             "rotate3": ["45", "10", "10"], "skewX": ["10"], "skewY": ["-10"], "matrix": ["1", "0", "0", "1", "5", "5"]}[f]
     name = f.rstrip("123")
     return f"{name}({asep.join(args)})"
+
+
+def func_text2(f, c):
+    """transform function text for a TransformCases record (argument separators incl. 'sign', blanks)"""
+    args = {"translate1": ["10"], "translate2": ["10", "-5"], "scale1": ["2"], "scale2": ["2", "-0.5"], "rotate1": ["45"],
+            "rotate3": ["45", "-10", "-10"], "skewX": ["10"], "skewY": ["-10"], "matrix": ["1", "-0", "-0", "1", "-5", "-5"]}[f]
+    name = f.rstrip("123")
+    if c["asep"] == "sign":
+        inner = "".join(a if (i == 0 or a.startswith("-")) else " " + a for i, a in enumerate(args))
+    else:
+        inner = c["asep"].join(args)
+    if c["wsp"] == "before":
+        return f"{name} ({inner})"
+    if c["wsp"] == "inside":
+        return f"{name}( {inner} )"
+    return f"{name}({inner})"
 
 
 VOCAB = [
@@ -78,6 +97,9 @@ VOCAB = [
     '<text x="1" y="2">a<tspan>b</tspan><!-- c -->d<tspan dx="1">e</tspan></text><g><!-- first --><rect x="0" y="0" width="1" height="1"/><!-- last --></g>',
     '<defs><filter id="f2"><feOffset dx="2" dy="3" result="o"/><feFlood flood-color="red"/><feComposite in2="o" operator="in"/></filter></defs><rect x="0" y="0" width="4" height="4" filter="url(#f2)"/>',
     '<text x="1" y="2" dx="1 2 3" dy="0.5" rotate="10">spaced</text><text x="1" y="9"><tspan x="1" dy="1.2em" dx="2">line</tspan></text>',
+    '<defs><text id="tr" x="0" y="0">referenced</text></defs><text x="1" y="2"><tref href="#tr" dx="1 2" dy="0.5em"/></text>',
+    '<text x="1" y="2"><altGlyph dx="1,2 3" dy="1" glyphRef="g1">x</altGlyph> tail</text>',
+    '<defs><filter id="f3"><feDropShadow dx="0.2" dy="0.4" stdDeviation="0.2"/></filter></defs><rect x="0" y="0" width="4" height="4" filter="url(#f3)"/>',
 ]
 
 
@@ -196,6 +218,15 @@ def run(rep, tier, seed):
             continue   # negative sizes are errors in SVG itself
         if c["attr"] == "stop-offset" and c["unit"] not in ("", "%"):
             continue
+        if c["attr"] in ("root-width", "line-end-only") and c["num"]["sign"] == "-":
+            continue
+        if c["attr"] == "root-width":
+            if c["unit"] == "%" or c["num"]["mant"] in ("huge", "small"):
+                continue    # a percentage has no aspect ratio to derive the other dimension from in our units
+            dim = "width" if j % 2 else "height"
+            cases.append({"k": f"c04n-{j}", "xml": f'<svg {dim}="{v}"><rect id="s" x="0" y="0" width="6" height="3"/></svg>',
+                          "what": "number:root-width", "case": c, "value": v})
+            continue
         cases.append({"k": f"c04n-{j}", "xml": "<svg>" + ATTRS[c["attr"]](v) + "</svg>", "what": "number:" + c["attr"], "case": c, "value": v})
     for j, c in enumerate(fam_cases["points"]):
         nums = {"int": ["0", "10", "5", "3"], "dec": ["0.5", "1.25", "10.5", "2.75"], "neg": ["-1", "-2.5", "-10", "-3"], "exp": ["1e1", "2e0", "5E-1", "1.5e1"]}[c["num"]]
@@ -212,7 +243,7 @@ def run(rep, tier, seed):
             ptsep = ", "
         cases.append({"k": f"c04q-{j}", "xml": f'<svg><{c["shape"]} id="s" points="{ptsep.join(pts)}" fill="none"/></svg>', "what": "points", "case": c})
     for j, c in enumerate(fam_cases["transform"]):
-        t = c["fsep"].join(func_text(f, c["asep"], rnd) for f in c["funcs"])
+        t = c["fsep"].join(func_text2(f, c) for f in c["funcs"])
         el = {"g": f'<g id="s" transform="{t}"><rect x="0" y="0" width="4" height="4"/></g>',
               "rect": f'<rect id="s" x="0" y="0" width="4" height="4" transform="{t}"/>',
               "path": f'<path id="s" d="M0 0 L4 4" transform="{t}"/>',
@@ -223,16 +254,30 @@ def run(rep, tier, seed):
            "clip-path": '<rect id="s" x="0" y="0" width="4" height="4" clip-path="url(#t)"/>', "marker-end": '<line id="s" x1="0" y1="0" x2="4" y2="4" marker-end="url(#t)"/>',
            "filter": '<rect id="s" x="0" y="0" width="4" height="4" filter="url(#t)"/>', "mask": '<rect id="s" x="0" y="0" width="4" height="4" mask="url(#t)"/>',
            "textpath-href": '<text id="s"><textPath href="#t">along</textPath></text>', "a-href": '<a id="s" href="#t"><rect x="0" y="0" width="2" height="2"/></a>',
-           "image-href": '<image id="s" x="0" y="0" width="4" height="4" href="#t"/>'}
+           "image-href": '<image id="s" x="0" y="0" width="4" height="4" href="#t"/>',
+           "use-external": '<use id="s" href="other.svg#part" x="5" y="5"/>',
+           "use-external-xlink": '<use id="s" xlink:href="http://example.org/lib.svg#part"/>',
+           "clip-path-none": '<rect id="s" x="0" y="0" width="4" height="4" clip-path="none"/>',
+           "clip-path-quoted": '<rect id="s" x="0" y="0" width="4" height="4" clip-path="url(&apos;#t&apos;)"/>',
+           "clip-path-dquoted": "<rect id='s' x='0' y='0' width='4' height='4' clip-path='url(\"#t\")'/>",
+           "clip-path-spaced": '<rect id="s" x="0" y="0" width="4" height="4" clip-path="url( #t )"/>',
+           "clip-path-shape": '<rect id="s" x="0" y="0" width="4" height="4" clip-path="circle(40%)"/>',
+           "clip-path-external": '<rect id="s" x="0" y="0" width="4" height="4" clip-path="url(shapes.svg#c)"/>',
+           "fill-url-quoted": '<rect id="s" x="0" y="0" width="4" height="4" fill="url(&apos;#t&apos;)"/>'}
     TGT = {"use-href": '<rect id="t" x="0" y="0" width="3" height="3"/>', "use-xlink": '<rect id="t" x="0" y="0" width="3" height="3"/>',
            "fill-url": '<defs><linearGradient id="t"><stop offset="0" stop-color="red"/></linearGradient></defs>',
            "stroke-url": '<defs><linearGradient id="t"><stop offset="0" stop-color="red"/></linearGradient></defs>',
            "clip-path": '<defs><clipPath id="t"><rect x="0" y="0" width="2" height="2"/></clipPath></defs>',
            "marker-end": '<defs><marker id="t" markerWidth="2" markerHeight="2"><path d="M0 0 L2 1 L0 2z"/></marker></defs>',
            "filter": '<defs><filter id="t"><feGaussianBlur stdDeviation="1"/></filter></defs>', "mask": '<defs><mask id="t"><rect x="0" y="0" width="4" height="4" fill="white"/></mask></defs>',
+           "use-external": "", "use-external-xlink": "", "clip-path-none": "", "clip-path-shape": "", "clip-path-external": "",
+           "clip-path-quoted": '<defs><clipPath id="t"><rect x="0" y="0" width="2" height="2"/></clipPath></defs>',
+           "clip-path-dquoted": '<defs><clipPath id="t"><rect x="0" y="0" width="2" height="2"/></clipPath></defs>',
+           "clip-path-spaced": '<defs><clipPath id="t"><rect x="0" y="0" width="2" height="2"/></clipPath></defs>',
+           "fill-url-quoted": '<defs><linearGradient id="t"><stop offset="0" stop-color="red"/></linearGradient></defs>',
            "textpath-href": '<defs><path id="t" d="M0 0 L10 0"/></defs>', "a-href": '<rect id="t" x="9" y="9" width="1" height="1"/>', "image-href": '<rect id="t" x="9" y="9" width="1" height="1"/>'}
     for j, c in enumerate(fam_cases["ref"]):
-        root = '<svg xmlns:xlink="http://www.w3.org/1999/xlink">' if c["form"] == "use-xlink" else "<svg>"
+        root = '<svg xmlns:xlink="http://www.w3.org/1999/xlink">' if c["form"] in ("use-xlink", "use-external-xlink") else "<svg>"
         body = (TGT[c["form"]] + REF[c["form"]]) if c["target"] == "before" else (REF[c["form"]] + TGT[c["form"]])
         cases.append({"k": f"c04r-{j}", "xml": root + body + "</svg>", "what": "ref:" + c["form"], "case": c})
     UTGT = {"rect0": '<rect id="t" x="0" y="0" width="3" height="3"/>', "rect-off": '<rect id="t" x="3" y="4" width="3" height="2"/>',
